@@ -582,7 +582,12 @@ func (obj *SparseFloat32Vector) Import(filename string) error {
     if v, err := strconv.ParseFloat(fields[1], 64); err != nil {
       return err
     } else {
-      values = append(values, float32(v))
+      x := float32(v)
+      // integers beyond 2^53 have no exact float64 representation
+      if k, err := strconv.ParseInt(fields[1], 10, 64); err == nil && k != 0 {
+        x = float32(k)
+      }
+      values = append(values, x)
     }
   }
   if err := checkSparseIndices(indices, n); err != nil {
